@@ -121,6 +121,16 @@ func c15Run(v *V, scen int, keys []string, vals []string) string {
 		}
 		_, err := p.ParseArgs([]string{"li" + keys[0]})
 		return vErrString(err)
+	case 8: // an INI text with several unknown sections: which one the error names
+		d := &c15Sec{}
+		p := NewNamedParser("prog", None)
+		p.AddGroup("Application Options", "", d)
+		text := "ss = 1\n"
+		for _, k := range keys {
+			text += "[zz" + k + "]\nss = 2\n"
+		}
+		err := NewIniParser(p).Parse(strings.NewReader(text))
+		return "S=" + d.S + " err=" + vErrString(err)
 	case 6: // final values after parsing map options
 		d := &c15Ini{}
 		p := NewNamedParser("prog", None)
